@@ -189,6 +189,27 @@ def make_leaf(rng, typ, lshape, dtype, mode):
     """mode: 'generic' | 'identity' | 'tiny' | 'large' | 'thin' (rotation angle between eps and
     1e-5 with every other block O(1): the band where closed forms cancel)."""
     n = int(np.prod(lshape)) if len(lshape) else 1
+    if mode == "mixed":
+        # one batch whose items sit in different branches: exact identity / zero, zero rotation with a translation, thin band, tiny,
+        # generic, large - the masked-assignment paths see all of them in one call
+        if typ[0] not in ("G", "A") or n < 2:
+            return make_leaf(rng, typ, lshape, dtype, "generic")
+        cyc = ("identity", "generic", "zero-rotation", "large", "thin", "tiny")
+        rows = []
+        for i in range(n):
+            m = cyc[i % len(cyc)]
+            if m == "zero-rotation":
+                if typ[1] in ("SO3", "so3", "RxSO3", "rxso3"):
+                    r = make_leaf(rng, typ, (), dtype, "identity").tensor().clone()
+                else:
+                    r = make_leaf(rng, typ, (), dtype, "generic").tensor().clone()
+                    r[3:6] = 0.0
+                    if typ[0] == "G":
+                        r[6] = 1.0
+                rows.append(r)
+            else:
+                rows.append(make_leaf(rng, typ, (), dtype, m).tensor().clone())
+        return pp.LieTensor(torch.stack(rows).reshape(tuple(lshape) + (rows[0].shape[-1],)), ltype=lie.LT[typ[1]])
     if mode == "thin" and typ[0] in ("G", "A"):
         u = lie.u_of(dtype)
         ang = np.array([rng.choice(THIN + (1.5 * u, 3 * u)) for _ in range(n)])
